@@ -5,6 +5,7 @@ package resmgr
 import (
 	"fmt"
 	"sort"
+	"strings"
 
 	"github.com/containers/nri-plugins/pkg/zzverif/vfkit"
 )
@@ -31,7 +32,13 @@ func checkRuntimeView(e *executor, r *stepResult) *vfkit.Violation {
 	if len(r.BadTargets) > 0 {
 		sort.Strings(r.BadTargets)
 		sig := "update-for-dead-container"
-		if e.failedPendingBefore {
+		allTainted := true
+		for _, b := range r.BadTargets {
+			if id := strings.SplitN(b, "(", 2)[0]; !e.tainted[id] {
+				allTainted = false
+			}
+		}
+		if e.failedPendingBefore || allTainted {
 			sig += ":after-failed-request"
 		}
 		return viol(P, "no update addresses a container the runtime has stopped or removed", sig,
@@ -74,7 +81,7 @@ func checkRuntimeView(e *executor, r *stepResult) *vfkit.Violation {
 					// the cache was set to the empty string, which NRI cannot convey
 					sig = "cache-emptied-but-runtime-keeps:" + f.name
 				}
-				if r.Err != nil || e.failedPending {
+				if r.Err != nil || r.CfgError != nil || e.failedPending {
 					sig += ":after-failed-request"
 				}
 				return viol(P, "runtime view equals cache view", sig,
@@ -92,7 +99,7 @@ func checkRuntimeView(e *executor, r *stepResult) *vfkit.Violation {
 	if len(pend) > 0 {
 		sort.Strings(pend)
 		sig := "pending-after-reply"
-		if r.Err != nil || e.failedPending {
+		if r.Err != nil || r.CfgError != nil || e.failedPending {
 			sig = "pending-after-failed-request"
 		}
 		return viol(P, "no change stays pending after the reply", sig, "after %s (err=%v): pending %v", r.Desc, r.Err, pend)
